@@ -318,6 +318,25 @@ def check_states(seed, count):
         ('blinds_and_bring_in', dict(antes=1, blinds=None, stacks=50, n=3, bring_in=2, cls='studblinds')),
         ('negative_bring_in', dict(antes=1, blinds=None, stacks=50, n=3, bring_in=-1, cls='stud')),
     ]
+    # blinds together with a bring-in, in every writing and with every sign pattern: a negative entry is a
+    # late-seated player's dead post, so a layout such as (1, 2, -3) - whose entries cancel - is still a blind
+    for k in range(24):
+        nn = rng.randint(3, 6)
+        while True:
+            bl = [rng.choice([0, 0, 1, 2, 4, -1, -2, -3, -4]) for _ in range(nn)]
+            if any(bl):
+                break
+        if k % 3 == 0:
+            # make the entries cancel
+            i = rng.randrange(nn)
+            bl[i] = bl[i] - sum(bl)
+            if not any(bl):
+                bl[0], bl[-1] = 2, -2
+        form = rng.choice(['tuple', 'list', 'mapping', 'mapping_negative'])
+        written = {'tuple': tuple(bl), 'list': list(bl), 'mapping': {i: x for i, x in enumerate(bl) if x},
+                   'mapping_negative': {i - nn: x for i, x in enumerate(bl) if x}}[form]
+        bad.append((f'blinds_and_bring_in:{"cancel" if sum(bl) == 0 else "plain"}:{form}',
+                    dict(antes=1, blinds=written, stacks=50, n=nn, bring_in=rng.choice([1, 2]), cls='studblinds')))
     for name, a in bad:
         n_checked += 1
         try:
@@ -326,10 +345,12 @@ def check_states(seed, count):
                 if a.get('cls') == 'studblinds':
                     from pokerkit import State, FixedLimitSevenCardStud
                     g = FixedLimitSevenCardStud((), True, 1, 2, 4, 8)
-                    State(g.automations, g.deck, g.hand_types, g.streets, g.betting_structure, True, 1, (1, 2), 2, 50, 3)
+                    State(g.automations, g.deck, g.hand_types, g.streets, g.betting_structure, True, a['antes'],
+                          a['blinds'] if a['blinds'] is not None else (1, 2), a['bring_in'], a['stacks'], a['n'])
                 else:
                     _state(a['antes'], a['blinds'], a['stacks'], a['n'], a.get('bring_in', 0), a.get('cls'))
-            viols.append(v('rejects', f'accepted:{name}', f'invalid layout {name} {a} was accepted', ['reject', name]))
+            viols.append(v('rejects', f'accepted:{name.split(":")[0]}', f'invalid layout {name} {a} was accepted',
+                           ['reject', name, {k_: (sorted(x.items()) if isinstance(x, dict) else x) for k_, x in a.items()}]))
         except ValueError:
             pass
         except Exception as ex:  # noqa: BLE001
@@ -365,4 +386,21 @@ def replay(inp):
         except Exception as ex:  # noqa: BLE001
             got = type(ex).__name__
         return None if got == cs else f'Card.clean({form} of {t}) = {got}'
+    if kind == 'reject' and len(inp) > 2 and inp[2].get('cls') == 'studblinds':
+        from pokerkit import State, FixedLimitSevenCardStud
+        a = inp[2]
+        bl = a['blinds']
+        if isinstance(bl, list) and bl and isinstance(bl[0], list):
+            bl = {k_: x for k_, x in bl}
+        g = FixedLimitSevenCardStud((), True, 1, 2, 4, 8)
+        try:
+            with warnings.catch_warnings():
+                warnings.simplefilter('ignore')
+                State(g.automations, g.deck, g.hand_types, g.streets, g.betting_structure, True, a['antes'],
+                      bl if bl is not None else (1, 2), a['bring_in'], a['stacks'], a['n'])
+        except ValueError:
+            return None
+        except Exception as ex:  # noqa: BLE001
+            return f'{type(ex).__name__} instead of ValueError for blinds {bl} with a bring-in'
+        return f'blinds {bl} together with bring-in {a["bring_in"]} accepted at construction'
     return None
